@@ -16,7 +16,9 @@
   `Proofs/WFTerm.lean`). `C07_nullable_sound` is the semantic soundness of the nullable analysis it rests on.
 -/
 import PigeonVerif.Properties.C19
+import PigeonVerif.Proofs.MidLemmas
 import PigeonVerif.Proofs.WFTerm
+import PigeonVerif.Proofs.Bridge
 import PigeonVerif.Properties.C06
 
 namespace PV
@@ -63,36 +65,6 @@ theorem C07_D17_accepted_although_left_recursive :
 theorem C07_D17_repair_would_reject :
     verdictOf { cfgNow with choiceVisitAll := true } gD17 ["A", "B"] = some (.ok true) := by decide
 
-theorem mem_addName (x n : String) (l : List String) : x ∈ addName n l ↔ x = n ∨ x ∈ l := by
-  unfold addName
-  split
-  · next h =>
-    have hn : n ∈ l := by simpa using h
-    constructor
-    · intro hx; exact Or.inr hx
-    · rintro (rfl | hx)
-      · exact hn
-      · exact hx
-  · simp [or_comm]
-
-theorem mem_union (x : String) (a b : List String) : x ∈ union a b ↔ x ∈ a ∨ x ∈ b := by
-  unfold union
-  induction b generalizing a with
-  | nil => simp
-  | cons n ns ih =>
-    simp only [List.foldl_cons]
-    rw [ih, mem_addName]
-    simp only [List.mem_cons]
-    constructor
-    · rintro ((rfl | h) | h)
-      · exact Or.inr (Or.inl rfl)
-      · exact Or.inl h
-      · exact Or.inr (Or.inr h)
-    · rintro (h | rfl | h)
-      · exact Or.inl (Or.inr h)
-      · exact Or.inl (Or.inl rfl)
-      · exact Or.inr h
-
 /-- direct left recursion is detected whatever follows: for `A <- A e / f` the rule's initial names
     contain `A` (a self-loop in the first graph), for every `e`, `f`, every flag assignment and
     every configuration of the analysis -/
@@ -135,6 +107,19 @@ theorem C07_no_same_position_cycle_terminates (E : Env) (rn : String → Bool) (
 theorem C07_every_expression_terminates (E : Env) (rn : String → Bool) (rank : String → Nat) (h : WFG E rn rank)
     (e : Expr) (s : PState) (hi : FInv E s) (hwf : e.wfs rn = true) : ∃ f, parseExpr E f e s ≠ .oof :=
   wf_terminates h e s hi hwf
+
+/-- **C07 (consequence, stated with the specification the check uses).** `Mid.Spec.leftRec` is the independent, Ford-style
+    definition of "some rule can reach itself at the same input position" that the C07 check compares the builder's verdict
+    with; `lowerG` forgets what the analysis does not look at. If the specification finds NO such rule — and the rule
+    names are distinct, every repetition has a non-nullable body, there is no throw/recover (plain configuration) — then
+    `Parse` terminates on every input, for every code environment. (`Proofs/Bridge.lean`: the two nullability / first-set
+    definitions agree, the specification's fixpoint is a closed oracle; `Proofs/Reach.lean`: its breadth-first closure IS
+    reachability, and an acyclic graph has a ranking.) -/
+theorem C07_spec_not_left_recursive_terminates (E : Env) (hp : Plain E) (hnd : (E.rules.map (·.name)).Nodup)
+    (hshape : ∀ r ∈ E.rules, r.expr.wfs (inList (Mid.Spec.nullRules (lowerG E.rules))) = true)
+    (hspec : Mid.Spec.leftRec (lowerG E.rules) = false) : ∃ f, parse E f ≠ .oof := by
+  obtain ⟨rank, h⟩ := spec_acyclic_wfg E hp hnd hshape hspec
+  exact wf_parse_terminates h
 
 /-- the hypothesis is decidable given a candidate witness: `checkWFG` is executable (the correspondence stream runs it
     on the generated grammars) and its `true` is sound -/
@@ -183,6 +168,17 @@ theorem wellformed (inp : String) : checkWFG (env inp) ["W"] [("R", 1)] = true :
   rw [this]; decide
 
 example (inp : String) : ∃ f, parse (env inp) f ≠ .oof := C07_checked_grammars_terminate _ _ _ (wellformed inp)
+
+/-- the same through the specification: it finds no left recursion in the example grammar (kernel-evaluated), so ... -/
+theorem spec_says_no : Mid.Spec.leftRec (lowerG rules) = false := by decide
+
+example (inp : String) : ∃ f, parse (env inp) f ≠ .oof :=
+  C07_spec_not_left_recursive_terminates (env inp) ⟨rfl, rfl, fun n r h => by
+      have := (findRule_mem h).1
+      simp only [env, rules, List.mem_cons, List.not_mem_nil, or_false] at this
+      rcases this with rfl | rfl | rfl <;> exact ⟨rfl, rfl⟩⟩
+    (show (rules.map (·.name)).Nodup by decide)
+    (show ∀ r ∈ rules, r.expr.wfs (inList (Mid.Spec.nullRules (lowerG rules))) = true by decide) spec_says_no
 
 /-- `A <- A "x" / "y"`: left recursive, and indeed no witness passes the checker's ranking test -/
 def lrRule : Rule :=
